@@ -44,7 +44,12 @@ fn synth_atom(i: usize, len: Option<u32>) -> String {
                 s.truncate(l.max(c.len_utf8()));
                 s
             } else {
+                // fill with 1-, 2- or 3-byte characters: byte length and character count differ for two thirds of the atoms
+                let fill = ['z', 'é', '中'][i % 3];
                 let mut s = base;
+                while s.len() + fill.len_utf8() <= l {
+                    s.push(fill);
+                }
                 while s.len() < l {
                     s.push('z');
                 }
@@ -350,7 +355,7 @@ fn all_counts() -> Vec<WriteCase> {
 fn seq_strategy() -> impl Strategy<Value = SeqCase> {
     let pool: Vec<&'static str> = vec!["ok", "error", "a", "b", "c", "n@h", "rex", "x@y", "undefined", "é", "true", "m", "f", "long_atom_name_1", "long_atom_name_2", ""];
     let atom = prop::sample::select(pool).prop_map(|s| Value::atom(s));
-    let long_atom = prop::sample::select(vec![256usize, 300]).prop_map(|n| Value::Atom("L".repeat(n)));
+    let long_atom = (prop::sample::select(vec![256usize, 300]), prop::sample::select(vec!["L", "é", "中"])).prop_map(|(n, u)| Value::Atom(u.repeat(n / u.len() + 1)));
     let leaf = prop_oneof![
         8 => atom.clone(),
         1 => long_atom,
